@@ -63,7 +63,7 @@ pub fn workloads() -> Vec<Workload> {
             // (the second evaluation runs after a first-use initialisation that was still in
             // flight during the first one has certainly finished)
             threads: vec![vec![Exec("max(1, 2) + 1")], vec![RegFn("min", "X"), Exec("min(1, 2)"), Exec("min(1, 2)")]],
-            post: vec![],
+            post: vec![Exec("min(1, 2)")],
             write_set: vec![3],
         },
         Workload {
@@ -71,7 +71,7 @@ pub fn workloads() -> Vec<Workload> {
             about: "first evaluation, registration of a new infix word operator, and an evaluation using that word, all at once",
             pre: vec![],
             threads: vec![vec![Exec("1 + 2 * 3")], vec![RegInfix("hi", 111, true, "H")], vec![Exec("1 hi 2")]],
-            post: vec![],
+            post: vec![Exec("1 hi 2")],
             write_set: vec![1],
         },
         Workload {
@@ -79,7 +79,7 @@ pub fn workloads() -> Vec<Workload> {
             about: "after warm-up: two registrations of the same function name against two evaluations of it",
             pre: vec![Exec("1 + 1")],
             threads: vec![vec![RegFn("f", "h1")], vec![RegFn("f", "h2")], vec![Exec("f()"), Exec("f()")]],
-            post: vec![],
+            post: vec![Exec("f()")],
             write_set: vec![3],
         },
         Workload {
@@ -87,7 +87,7 @@ pub fn workloads() -> Vec<Workload> {
             about: "after warm-up: registration of a prefix and a postfix operator against parses of text using them",
             pre: vec![Exec("1 + 1")],
             threads: vec![vec![RegPrefix("npre", "P"), RegPostfix("npo", "Q")], vec![Exec("npre 1 npo"), Exec("npre 1 npo")]],
-            post: vec![],
+            post: vec![Exec("npre 1 npo")],
             write_set: vec![0, 2],
         },
         Workload {
@@ -95,7 +95,7 @@ pub fn workloads() -> Vec<Workload> {
             about: "after warm-up: registration of one prefix operator against two evaluations using it (a single registration is atomic for a single-occurrence expression)",
             pre: vec![Exec("1 + 1")],
             threads: vec![vec![RegPrefix("npre", "P")], vec![Exec("npre 1"), Exec("npre 1")]],
-            post: vec![],
+            post: vec![Exec("npre 1")],
             write_set: vec![0],
         },
         Workload {
@@ -103,7 +103,7 @@ pub fn workloads() -> Vec<Workload> {
             about: "after warm-up: registration of one postfix operator against two evaluations using it",
             pre: vec![Exec("1 + 1")],
             threads: vec![vec![RegPostfix("npo", "Q")], vec![Exec("1 npo"), Exec("1 npo")]],
-            post: vec![],
+            post: vec![Exec("1 npo")],
             write_set: vec![2],
         },
         Workload {
@@ -127,7 +127,7 @@ pub fn workloads() -> Vec<Workload> {
             about: "after warm-up and a first registration: re-registration of an infix operator against an evaluation using it (must see the old or the new operator, never neither)",
             pre: vec![Exec("1 + 1"), RegInfix("pick", 105, true, "old")],
             threads: vec![vec![RegInfix("pick", 105, true, "new")], vec![Exec("10 pick 20"), Exec("10 pick 20")]],
-            post: vec![],
+            post: vec![Exec("10 pick 20")],
             write_set: vec![1],
         },
         Workload {
@@ -135,7 +135,7 @@ pub fn workloads() -> Vec<Workload> {
             about: "after warm-up: an evaluation tokenises a word while another thread registers it as an infix operator and then uses it itself (whatever the first thread saw, the registrar's own later evaluation must see the operator)",
             pre: vec![Exec("1 + 1")],
             threads: vec![vec![Exec("10 pk 20")], vec![RegInfix("pk", 105, true, "K"), Exec("10 pk 20"), Exec("10 pk 20")]],
-            post: vec![],
+            post: vec![Exec("10 pk 20")],
             write_set: vec![1],
         },
         Workload {
@@ -159,7 +159,7 @@ pub fn workloads() -> Vec<Workload> {
             about: "the first engine calls are two registrations (one of a built-in operator) and an evaluation",
             pre: vec![],
             threads: vec![vec![RegInfix("+", 110, true, "plus2")], vec![RegFn("sum", "S")], vec![Exec("sum(1, 2) + 3")]],
-            post: vec![],
+            post: vec![Exec("sum(1, 2) + 3")],
             write_set: vec![1, 3],
         },
     ]
@@ -469,6 +469,15 @@ fn explore(w: &Workload, bound: usize, reduce: bool, jobs: usize, budget: Durati
                 match res {
                     Err(e) => fails.lock().unwrap().push(("machinery:child-failed".into(), case, e)),
                     Ok(j) => {
+                        if hash64(&ch) % 64 == 0 {
+                            // own every source of nondeterminism, then prove it: same choices, same run
+                            if let Ok(j2) = run_child(&["sched".into(), w.name.into(), if reduce { "1".into() } else { "0".into() }, ch.clone()], Duration::from_secs(30)) {
+                                if j2["obs"] != j["obs"] || j2["points"] != j["points"] {
+                                    fails.lock().unwrap().push(("machinery:nondeterministic-replay".into(), case.clone(), "the same choice sequence produced a different execution".into()));
+                                }
+                                agg.lock().unwrap().noncandidates += 0;
+                            }
+                        }
                         let points = j["points"].as_array().cloned().unwrap_or_default();
                         let choices: Vec<usize> = points.iter().map(|p| p["c"].as_u64().unwrap_or(0) as usize).collect();
                         let obs = j["obs"].to_string();
@@ -501,7 +510,10 @@ fn explore(w: &Workload, bound: usize, reduce: bool, jobs: usize, budget: Durati
                         } else if obs.contains("PANIC(") {
                             f.push((format!("panic-in-thread:{}", w.name), case.clone(), obs.clone()));
                         } else if !allowed.contains(&obs) {
-                            f.push((format!("not-linearizable:{}:outcome-{:08x}", w.name, hash64(&obs) & 0xffff_ffff), case.clone(), format!("per-thread results {} equal no sequential order of the calls; sequential outcomes: {:?}", obs, allowed)));
+                            // the key identifies the exact per-thread result vectors (post-join results
+                            // follow from them and are left out of the key)
+                            let threads_only = serde_json::Value::Array(j["obs"].as_array().map(|a| a[..w.threads.len().min(a.len())].to_vec()).unwrap_or_default()).to_string();
+                            f.push((format!("not-linearizable:{}:outcome-{:08x}", w.name, hash64(&threads_only) & 0xffff_ffff), case.clone(), format!("per-thread results {} equal no sequential order of the calls; sequential outcomes: {:?}", obs, allowed)));
                         }
                         if j["shared_contexts"].as_array().map(|a| !a.is_empty()).unwrap_or(false) {
                             f.push(("machinery:context-shared-between-threads".into(), case.clone(), "a context mutex was touched by two threads: the thread-local reduction is not valid".into()));
@@ -555,7 +567,20 @@ pub fn check_workload(w: &Workload, bound: usize, budget: Duration, out: &mut Wo
             Err(e) => out.fail("machinery:seq-child-failed", format!("{}|order={}", w.name, o), e),
         }
     }
-    let (ex, capped) = explore(w, bound, true, jobs, budget, &allowed, out);
+    let (mut ex, capped) = explore(w, bound, true, jobs, budget, &allowed, out);
+    if !w.write_set.is_empty() {
+        // a second pass without the registry reduction (every lock is a candidate) at one
+        // preemption: hidden state between two reads of "read-only" registries shows here
+        let (ex1, _) = explore(w, 1, false, jobs, budget, &allowed, out);
+        out.count(&format!("schedules_unreduced_bound1:{}", w.name), ex1.schedules);
+        ex.schedules += ex1.schedules;
+        ex.points += ex1.points;
+        ex.max_points = ex.max_points.max(ex1.max_points);
+        ex.states.extend(ex1.states);
+        for (k, v) in ex1.outcomes {
+            *ex.outcomes.entry(k).or_insert(0) += v;
+        }
+    }
     out.evals += ex.schedules;
     out.count("validated", ex.schedules);
     out.count("states", ex.states.len() as u64);
